@@ -237,7 +237,7 @@ STDIN_CLASS = {"empty": "empty", "cnf": "cnf", "kthlist": "kthlist", "cnf-trunca
 # ---------------------------------------------------------------------------
 PHASE_BY_FRAME = (("to_file", "write"), ("transform_cnf", "transform"), ("build_formula", "build"),
                   ("parse_command_line", "parse"), ("parse_args", "parse"), ("from_file", "read"), ("readGraph", "read"))
-LIMIT_ERRORS = ("OverflowError", "MemoryError", "RecursionError")
+LIMIT_ERRORS = ("OverflowError", "RecursionError")
 
 
 def describe_exception(e):
@@ -370,7 +370,9 @@ class Observation:
 def execute(zoo, tool, argv, stdin_kind, seed):
     """One real main() in-process.  argv carries '@name' placeholders for scratch paths."""
     zoo.clean_out()
-    real = zoo.render(argv)
+    # a real process gets fresh string objects: argparse decides "was this option given" by identity with the
+    # default, which an interned literal of this module could accidentally share
+    real = [(t + "\0")[:-1] if len(t) > 1 else t for t in zoo.render(argv)]
     random.seed(seed)
     state = random.getstate()
     with Taps(tool) as taps:
@@ -520,6 +522,8 @@ class Batch:
         if risky and not zoo.intact():
             zoo.restore()
             ctx.count("scratch_files_restored")
+        if ob.exc is not None and ob.exc[0] == "MemoryError":
+            raise RuntimeError("the size cap let %s %r through: MemoryError under the harness's address space limit" % (tool, argv))
         cls, mech, msg = judge(ob)
         # accounting
         ctx.count("tool:" + tool)
@@ -687,7 +691,7 @@ VALID_GRAPHS = {
         ["complete", "3", "save", "@out/g1.gml"], ["gnp", "4", ".5", "save", "kthlist", "@out/g2"],
         ["@simple.gml", "addedges", "1"], ["grid", "2", "2", "save", "dot", "@out/g3.dot"]],
     "bipartite": argvcorpus.BIP_DET + argvcorpus.BIP_RND + [
-        ["complete", "3", "3"], ["glrd", "4", "4", "2"], ["regular", "4", "4", "2"], ["glrp", "3", "3", "0"], ["glrp", "3", "3", "1"],
+        ["complete", "3", "3"], ["glrd", "4", "3", "2"], ["regular", "3", "3", "1"], ["glrp", "3", "3", "0"], ["glrp", "3", "3", "1"],
         ["@bip.matrix"], ["matrix", "@bip.matrix"], ["@bip.kthlist"], ["kthlist", "@bip.kthlist"],
         ["complete", "2", "2", "save", "@out/g1.matrix"], ["glrm", "2", "3", "3", "save", "kthlist", "@out/g2"]],
     "dag": argvcorpus.DAG_DET + [
@@ -933,23 +937,26 @@ def sanitize(tool, argv):
     return out
 
 
+CONSTRUCTIONS = ("grid", "torus", "complete", "empty", "gnp", "gnm", "gnd", "glrp", "glrm", "glrd", "regular", "shift")
+
+
 def size_guard(argv):
-    """Syntactic size cap (no alarm needed): grid / torus volumes, DAG heights, and everything smaller when a
-    transformation follows.  Returns the (possibly trimmed) argument vector."""
+    """Syntactic size cap (no alarm needed): the product of the integers behind a graph construction (its number of
+    vertices, at least) stays <= 27 (<= 12 for tseitin, whose clauses are exponential in the degree; <= 9 when a
+    transformation follows), DAG heights <= 4, and all numbers <= 3 when a transformation follows.  Returns the
+    (possibly trimmed) argument vector."""
     argv = list(argv)
     chain = "-T" in argv
+    cap = 9 if chain else 12 if "tseitin" in argv else 27
     i = 0
     while i < len(argv):
         w = argv[i]
-        if w in ("grid", "torus"):
+        if w in CONSTRUCTIONS:
             vol, j = 1, i + 1
             while j < len(argv) and is_number(argv[j]):
-                try:
-                    v = int(argv[j])
-                except ValueError:
-                    v = 1
+                v = int(argv[j]) if argv[j].isdigit() and len(argv[j]) < 20 else 1
                 if v > 1:
-                    if vol * v > (9 if chain else 27):
+                    if vol * v > cap:
                         del argv[j]
                         continue
                     vol *= v
@@ -967,7 +974,7 @@ def size_guard(argv):
 TINY_BASES = [["php", "3", "2"], ["op", "3"], ["and", "2", "1"], ["or", "2", "1"], ["false"], ["true"], ["parity", "3"],
               ["peb", "pyramid", "1"], ["tseitin", "first", "grid", "2", "2"], ["kclique", "2", "complete", "3"], ["count", "3", "3"],
               ["php", "complete", "2", "2"], ["stone", "2", "path", "2"], ["dimacs", "@formula.cnf"], ["kcolor", "2", "@simple.gml"]]
-ZERO_ARG_T = ["none", "flip", "ite", "shuffle"]
+ZERO_ARG_T = ["none", "flip", "shuffle"]          # ite has no argument either, but multiplies clauses
 
 
 HUGE_CHUNKS = [["xor", HUGE], ["lift", HUGE], ["exact", "2", HUGE], ["exact", HUGE, "2"], ["or", HUGE], ["maj", HUGE], ["eq", HUGE],
@@ -1311,8 +1318,18 @@ def file_commands():
 # ---------------------------------------------------------------------------
 # cases
 # ---------------------------------------------------------------------------
+def limit_memory():
+    """Safety net under the syntactic size cap: a command that escapes it must not take the machine down."""
+    import resource
+    soft, hard = resource.getrlimit(resource.RLIMIT_AS)
+    want = 6 << 30
+    if soft == resource.RLIM_INFINITY or soft > want:
+        resource.setrlimit(resource.RLIMIT_AS, (want, hard))
+
+
 def run_batch(ctx, tag, commands, nsub):
     oc.selfcheck()
+    limit_memory()
     zoo = Zoo()
     try:
         b = Batch(ctx, zoo, tag)
@@ -1400,7 +1417,7 @@ def case_outside_git_tree(ctx):
 def workload(tier, seed):
     quick = tier == "quick"
     step = 150
-    n_grammar, n_mut, n_fil = (2700, 2400, 600) if quick else (60000, 60000, 12000)
+    n_grammar, n_mut, n_fil = (2700, 2400, 600) if quick else (45000, 45000, 9000)
     # indices depend on the seed so that another seed is another sample
     base = seed * 1000003
     for lo in range(0, n_grammar, step):
